@@ -3,6 +3,7 @@
 import TFV.Generated.Src.get_n_jobs
 import TFV.Model.Split
 import TFV.Lemmas.Src.GetNJobs
+import TFV.Properties.Split
 
 namespace TFV.SrcTie
 open TFV.Generated.Src
@@ -10,5 +11,21 @@ open TFV.Generated.Src
 theorem C16_src_get_n_jobs (n : Int) (pop cpu : Nat) (hpop : 1 ≤ pop) :
     get_n_jobs n (pop : Int) (cpu : Int) = (Split.normJobs n cpu pop).map Int.ofNat :=
   src_get_n_jobs n pop cpu hpop
+
+/-- C16 on the translated `_get_n_jobs`: 0 is rejected, everything else lands in [1, pop_size] -/
+theorem C16_src_get_n_jobs_range (n : Int) (pop cpu : Nat) (hpop : 1 ≤ pop) :
+    (get_n_jobs n (pop : Int) (cpu : Int) = none ↔ n = 0) ∧
+    (∀ k : Int, get_n_jobs n (pop : Int) (cpu : Int) = some k → 1 ≤ k ∧ k ≤ pop) := by
+  rw [C16_src_get_n_jobs n pop cpu hpop]
+  have h := Split.C16_normJobs n cpu pop hpop
+  refine ⟨?_, ?_⟩
+  · rw [Option.map_eq_none_iff]; exact h.1
+  · intro k hk
+    rw [Option.map_eq_some_iff] at hk
+    obtain ⟨a, ha, rfl⟩ := hk
+    have := h.2.1 a ha
+    have h1 := this.1; have h2 := this.2
+    show (1 : Int) ≤ (a : Int) ∧ (a : Int) ≤ (pop : Int)
+    omega
 
 end TFV.SrcTie
